@@ -117,22 +117,57 @@ func checkTool(files []string) (ds []hx.Discrepancy) {
 		}
 		return
 	}
-	hasDirDefs := strings.Contains(strings.Join(files, "\n"), "directive @")
+	all := strings.Join(files, "\n")
+	hasDirDefs := strings.Contains(all, "directive @")
+	// an implied schema (no schema block) that is extended
+	extImplied := strings.Contains(all, "extend schema") && !strings.HasPrefix(all, "schema") && !strings.Contains(all, "\nschema")
 	for which, out := range map[string][]string{"-w (rewrite)": rew, "-e (embed)": emb} {
 		got, err := load(out)
-		sig := ""
-		if hasDirDefs {
-			sig = "KF-C15-ggqlgen-directive-definitions"
-		}
+		in, outText := strings.Join(files, "\n--- next file\n"), strings.Join(out, "\n--- next file\n")
 		if err != nil {
-			add("tool-output-rejected", sig, "ggqlgen %s output is not accepted: %v\n--- input\n%s\n--- output\n%s", which, err, strings.Join(files, "\n--- next file\n"), strings.Join(out, "\n--- next file\n"))
+			sig := ""
+			if hasDirDefs {
+				sig = "KF-C15-ggqlgen-directive-definitions"
+			}
+			add("tool-output-rejected", sig, "ggqlgen %s output is not accepted: %v\n--- input\n%s\n--- output\n%s", which, err, in, outText)
 			continue
 		}
-		if got != want {
-			add("tool-output-differs", sig, "ggqlgen %s output defines a different schema: %s\n--- input\n%s\n--- output\n%s", which, firstDiff(want, got), strings.Join(files, "\n--- next file\n"), strings.Join(out, "\n--- next file\n"))
+		if got == want {
+			continue
+		}
+		// the two recorded findings are told apart by what differs: only directive definition blocks, only the roots line
+		dirsOnly := hasDirDefs && stripBlocks(want, "directive ") == stripBlocks(got, "directive ")
+		rootsOnly := extImplied && stripBlocks(want, "roots ") == stripBlocks(got, "roots ")
+		both := hasDirDefs && extImplied && stripBlocks(stripBlocks(want, "directive "), "roots ") == stripBlocks(stripBlocks(got, "directive "), "roots ")
+		switch {
+		case dirsOnly:
+			add("tool-output-differs", "KF-C15-ggqlgen-directive-definitions", "ggqlgen %s output drops directive definitions: %s\n--- input\n%s\n--- output\n%s", which, firstDiff(want, got), in, outText)
+		case rootsOnly:
+			add("tool-output-differs", "KF-C15-ggqlgen-implied-schema-extension", "ggqlgen %s output drops the extension of the implied schema: %s\n--- input\n%s\n--- output\n%s", which, firstDiff(want, got), in, outText)
+		case both:
+			add("tool-output-differs", "KF-C15-ggqlgen-directive-definitions", "ggqlgen %s output drops directive definitions: %s\n--- input\n%s\n--- output\n%s", which, firstDiff(want, got), in, outText)
+			add("tool-output-differs", "KF-C15-ggqlgen-implied-schema-extension", "ggqlgen %s output drops the extension of the implied schema\n--- input\n%s\n--- output\n%s", which, in, outText)
+		default:
+			add("tool-output-differs", "", "ggqlgen %s output defines a different schema: %s\n--- input\n%s\n--- output\n%s", which, firstDiff(want, got), in, outText)
 		}
 	}
 	return
+}
+
+// stripBlocks removes from a canonical description the blocks whose head line starts with prefix
+// (a block is a head line at column 0 and the indented lines that follow it).
+func stripBlocks(desc, prefix string) string {
+	var out []string
+	drop := false
+	for _, line := range strings.Split(desc, "\n") {
+		if line != "" && !strings.HasPrefix(line, " ") {
+			drop = strings.HasPrefix(line, prefix)
+		}
+		if !drop {
+			out = append(out, line)
+		}
+	}
+	return strings.Join(out, "\n")
 }
 
 // splitFiles cuts a rendered schema into two files: self-contained simple definitions first.
